@@ -399,10 +399,12 @@ def explore_config(res, group, c, root_cache):
         fsmod.ThreadPoolExecutor = world.executor_class("thread")
         fsmod.ProcessPoolExecutor = world.executor_class("process")
         fsmod.gc = NoGC
+        restore = world.install_waiters()
         try:
             fs.info_cache.clear()
             obs = r.execute()
         finally:
+            restore()
             (fsmod.ThreadPoolExecutor, fsmod.ProcessPoolExecutor,
              fsmod.gc) = saved
         return r, world, obs
